@@ -1,53 +1,84 @@
-"""Hunt round 3 for C03 (marker evaluation agrees with packaging) on the UNMODIFIED tree.
+"""Hunt script for property C03 (marker evaluation agrees with packaging).
 
-No truth-value disagreement was found for marker texts over the well-defined atom
-classes with ordinary string / set / frozenset environments (see the report for the
-areas and case counts).  The only deviations found sit on the fringe of the quantifier
-(unusual-but-legal environment value types, degenerate atoms); they are printed below
-with the library's answer and packaging's answer side by side.
+Run as:  cd /tmp/wt/C03j && PYTHONPATH=/tmp/wt/C03j/src /venv/bin/python hunt_C03.py
 
-Run: cd /tmp/wt/C03i && PYTHONPATH=/tmp/wt/C03i/src /venv/bin/python hunt_C03.py
+Prints every NEW violation found on the unmodified library: the marker text, the
+environment, what dep_logic returns and what packaging (the oracle) returns.
+
+V1  The `reversed` flag is forgotten by EqualityMarkerUnion / InequalityMultiMarker.
+    `"a" == extras` / `"a" != extras` (literal on the left, set-valued variable) are
+    legal for packaging: a string never equals a set, so they evaluate to False / True.
+    dep_logic agrees on the single atom, but as soon as two such atoms are merged into
+    an EqualityMarkerUnion / InequalityMultiMarker and that object is reduced back to
+    one value (`replace()`), the atom is rebuilt as the FORWARD atom `extras == "a"`,
+    whose evaluation asserts that the variable is a string: AssertionError (TypeError
+    under `python -O`) where packaging returns a truth value.
+
+V2  (marginal: an atom with a variable on BOTH sides is hardly "well-defined")
+    `extra == os_name`: packaging compares the (normalised) extra with the raw text
+    "os_name" and never normalises that text, dep_logic normalises it to "os-name".
 """
+
+from __future__ import annotations
+
 from packaging.markers import Marker, default_environment
 
 from dep_logic.markers import parse_marker
 
-
-def both(text, env, context="metadata"):
-    full = dict(default_environment())
-    full.update(env)
-    out = []
-    for impl in (parse_marker(text), Marker(text)):
-        try:
-            out.append(repr(impl.evaluate(dict(full), context=context)))
-        except Exception as exc:  # noqa: BLE001
-            out.append(f"raises {type(exc).__name__}: {exc}")
-    return out
+BASE = default_environment()
+BASE.update(python_version="3.9", python_full_version="3.9.1")
 
 
-def show(title, text, env, context):
-    lib, pkg = both(text, env, context)
-    flag = "DIFFERS" if lib != pkg else "agrees"
-    print(f"[{flag}] {title}\n    marker   : {text}\n    env      : {env!r} (context={context})\n"
-          f"    dep_logic: {lib}\n    packaging: {pkg}\n")
+def run(text: str, env: dict, **kw) -> bool:
+    e = dict(BASE)
+    e.update(env)
+    try:
+        expected = Marker(text).evaluate(e, **kw)
+    except Exception as exc:  # pragma: no cover
+        expected = f"raises {type(exc).__name__}: {exc}"
+    try:
+        parsed = parse_marker(text)
+        got = parsed.evaluate(e, **kw)
+    except Exception as exc:
+        got = f"raises {type(exc).__name__}: {exc}"
+        parsed = parse_marker(text)
+    if got != expected:
+        print(f"VIOLATION  marker : {text}")
+        print(f"           env    : {env} {kw}")
+        print(f"           parsed : {parsed!r}")
+        print(f"           dep_logic -> {got}")
+        print(f"           packaging -> {expected}")
+        return True
+    return False
 
 
-print("== F1 (new, minor): set-valued extras / dependency_groups given as a collections.abc.Set "
-      "that is not set/frozenset (packaging's Environment type is AbstractSet[str]) ==")
-show("dict keys view as extras", '"a" in extras', {"extras": {"a": 1, "b": 2}.keys()}, "lock_file")
-show("dict keys view as dependency_groups", '"dev" not in dependency_groups',
-     {"dependency_groups": {"test": None}.keys()}, "lock_file")
-show("control: frozenset", '"a" in extras', {"extras": frozenset({"A"})}, "lock_file")
+def main() -> None:
+    found = 0
+    lock = {"context": "lock_file"}
+    print("== V1: literal-on-the-left ==/!= on a set-valued variable loses its operand order")
+    cases = [
+        # sanity: the single atoms agree
+        ('"a" == extras', {"extras": {"a"}}),
+        ('"a" != extras', {"extras": {"a"}}),
+        # merged and reduced back to one value
+        ('("a" == extras or "b" == extras) and "b" != extras', {"extras": {"a"}}),
+        ('("a" != extras and "b" != extras) or "a" == extras', {"extras": {"a"}}),
+        ('("a" == extras or "b" == extras) and "a" in extras', {"extras": {"a"}}),
+        ('"c" != extras and ("a--b" != extras or "A-B" in extras)', {"extras": frozenset({"a"})}),
+        (
+            '("dev" != dependency_groups and "b" != dependency_groups) or "b" == dependency_groups',
+            {"dependency_groups": {"dev"}},
+        ),
+    ]
+    for text, env in cases:
+        found += run(text, env, **lock)
 
-print("== F2 (fringe: degenerate ==/!= atoms on extras/dependency_groups with a STRING value; "
-      "PEP 685 normalisation is lost once two such atoms merge into an Equality/Inequality union) ==")
-show("single atom normalises", '"a" == dependency_groups', {"dependency_groups": "A"}, "lock_file")
-show("two atoms merged into EqualityMarkerUnion do not",
-     '"a" == dependency_groups or "b" == dependency_groups', {"dependency_groups": "A"}, "lock_file")
-show("two atoms merged into InequalityMultiMarker do not",
-     '"a" != extras and "b" != extras', {"extras": "A"}, "lock_file")
+    print("== V2 (marginal): variable on both sides of `extra`")
+    found += run("extra == os_name", {"extra": "os.name"})
+    found += run("extra != python_version", {"extra": "python_version"})
 
-print("== F3 (fringe: environment lacks a key; and/or short-circuit hides packaging's "
-      "UndefinedEnvironmentName) ==")
-show("extras atom in metadata context", 'python_version == "2.0" and "x" in extras', {}, "metadata")
-show("extra atom in requirement context", 'os_name == "no-such-os" and extra == "x"', {}, "requirement")
+    print(f"{found} violating inputs printed")
+
+
+if __name__ == "__main__":
+    main()
